@@ -107,11 +107,15 @@ def case_v2(case):
             stamped = ref.stamp_v2(raw, st["base"], st["epoch"], st["lat"], st["control"])
             res["stamped"] = stamped.hex()
             res["dec"] = {d: decode_v2(d, stamped) for d in ("py", "cy")}
-            res["dec_raw"] = {d: decode_v2(d, raw) for d in ("py", "cy")}
+            if res["dec"]["cy"] == res["dec"]["py"]:
+                res["dec"]["cy"] = "=py"            # (keeps the JSON small; expanded by the harness)
             try:
                 h, rr = ref.decode_v2(stamped)
                 data = h.pop("data")
-                res["ref"] = {"hdr": h, "recs": ref_recs_v2(rr), "data": data.hex()}
+                rrecs = ref_recs_v2(rr)
+                if isinstance(res["dec"]["py"], dict) and res["dec"]["py"].get("recs") == rrecs:
+                    rrecs = "=py"
+                res["ref"] = {"hdr": h, "recs": rrecs, "data": data.hex()}
                 h0, _ = ref.decode_v2(raw)
                 h0.pop("data")
                 res["ref_raw_hdr"] = h0
@@ -207,7 +211,12 @@ def make_batch(spec):
     if by == "ref":
         return ref.encode_legacy(spec["cfg"]["magic"],
                                  [(r[0], r[1], unhex(r[2]), unhex(r[3])) for r in spec["recs"]])
-    return bytes.fromhex(build_legacy(by, spec["cfg"], spec["recs"])["bytes"])
+    raw = bytes.fromhex(build_legacy(by, spec["cfg"], spec["recs"])["bytes"])
+    if spec["cfg"]["codec"]:
+        # a broker gives the wrapper the offset of its last inner message
+        st = spec.get("stamp") or {"base": 0, "lat": None}
+        raw = ref.stamp_legacy(raw, st["base"] + spec["recs"][-1][0], st["lat"])
+    return raw
 
 
 def run_memrec(name, buf):
